@@ -300,9 +300,11 @@ struct History {
 
 fn list_histories(max_len: usize, out: &mut Vec<History>) {
     for kind in 0..KINDS {
-        let mut ops = list_ops(kind);
-        if max_len <= 3 {
-            // quick tier: six of the eighteen derived-list operations (each deriving function, both targets, each kind of change)
+        let all_ops = list_ops(kind);
+        let mut ops = all_ops.clone();
+        {
+            // six of the eighteen derived-list operations (each deriving function, both targets, each kind of change): the
+            // quick tier uses this menu throughout, the thorough tier uses it at length 4 and the full menu at length <= 3
             let keep = |o: &Op| match o.name {
                 "derived(filter-all)-changed" => o.src.contains("list.push(m") || o.src.contains("list.set(m"),
                 "source-of(filter-all)-changed" => o.src.contains("list.pop(l"),
@@ -318,8 +320,9 @@ fn list_histories(max_len: usize, out: &mut Vec<History>) {
         let ty = dom[0].ty();
         for init in 0..2 {
             let init_vals: Vec<Val> = if init == 0 { vec![] } else { vec![dom[0].clone(), dom[1].clone()] };
-            let n = ops.len();
             for len in 1..=max_len {
+                let ops = if max_len > 3 && len <= 3 { &all_ops } else { &ops };
+                let n = ops.len();
                 for mut code in 0..n.pow(len as u32) {
                     let mut model = init_vals.clone();
                     let mut expected = Vec::new();
